@@ -358,3 +358,128 @@ Lemma out_vars_spec cur_chr chroms rd iv :
 Proof.
   unfold out_vars, requested. rewrite filter_In, existsb_exists. tauto.
 Qed.
+
+(* ---- the pinned loop is refuted -------------------------------------------- *)
+
+Definition ex_vars := [mkrv false 1 10; mkrv false 2 10; mkrv false 3 10].
+Definition ex_data : gdata := [[(0, 1); (2, 3); (1, 0)]; [(2, 3); (0, 1); (3, 2)]].
+Definition ex_hap := [mkseg 1 1 2147483647 0; mkseg 2 3 2147483647 0].
+Definition ex_st := mkds [(1, [0]); (2, [1])] [[]; []; []; []] [0; 0] [[0]; [0]] [].
+Definition arr_of (x : res (list (option cell) * dstate)) : list (option cell) :=
+  match x with Ok (a, _) => a | Err _ => [] end.
+
+(* reference holds chromosomes 1,2,3; requested 1,3.  Pinned: chromosome 2's row
+   gets chromosome 3's assignment (label 2, reference sample 1) read from the
+   panel's chromosome-2 row, chromosome 3's row stays uninitialised.
+   Repaired: rows = the variants of chromosomes 1 and 3, both written from
+   their own panel rows. *)
+Example legacy_extra_chrom_refuted :
+  arr_of (hap_loop_legacy false 3 ex_data false (read_vars None ex_vars) ex_hap [1; 3] 0
+            (repeat None 3) ex_st)
+  = [Some (0, 1, 0); Some (0, 2, 1); None]
+  /\ map fst (out_vars false [1; 3] (read_vars None ex_vars)) = [0; 2]
+  /\ arr_of (output_hap false false 3 ex_data false (out_vars false [1; 3] (read_vars None ex_vars))
+               ex_hap [1; 3] ex_st)
+  = [Some (0, 1, 0); Some (3, 2, 1)].
+Proof. vm_compute. repeat split; reflexivity. Qed.
+
+(* ---- soundness of the boolean checkers ------------------------------------- *)
+
+Lemma Zeqb_spec a b : (a =? b) = true <-> a = b.
+Proof. apply Z.eqb_eq. Qed.
+
+Lemma holds_assign_sound k :
+  holds_assign k = true -> assign_pre (a_pos k) (a_ends k) = true ->
+  a_obs k = Ok (map (fun p => Z.of_nat (first_ge (a_ends k) p)) (a_pos k)).
+Proof.
+  unfold holds_assign. intros H Hp. rewrite Hp in H.
+  destruct (a_obs k) as [l|e]; cbn [res_eqb] in H; [|discriminate].
+  apply (list_eqb_spec Z.eqb Zeqb_spec) in H. subst. reflexivity.
+Qed.
+
+(* the precondition evaluated by the checker is the theorem's hypothesis *)
+Lemma assign_pre_sound pos ends : assign_pre pos ends = true ->
+  asc pos /\ asc ends /\ forall p, In p pos -> exists e, last_opt ends = Some e /\ p <= e.
+Proof.
+  unfold assign_pre. intros H. apply andb_true_iff in H. destruct H as [H H3].
+  apply andb_true_iff in H. destruct H as [H1 H2].
+  split; [apply ascending_asc; exact H1|]. split; [apply ascending_asc; exact H2|].
+  intros p Hp. destruct (last_opt ends) as [e|].
+  - exists e. split; [reflexivity|]. rewrite forallb_forall in H3. apply Z.leb_le. apply H3. exact Hp.
+  - destruct pos; [destruct Hp|discriminate].
+Qed.
+
+Lemma block_key_label l c p : forall i, option_map snd (block_key l c p i) = label_at l c p.
+Proof.
+  induction l as [|s r IH]; intros i; cbn [block_key label_at]; [reflexivity|].
+  destruct ((chrom s =? c) && (p <=? endc s)); [reflexivity|]. apply IH.
+Qed.
+
+Lemma key_eqb_refl k : key_eqb k k = true.
+Proof. unfold key_eqb. rewrite Nat.eqb_refl, Z.eqb_refl. reflexivity. Qed.
+
+(* what hap_ok = true says about one simulated haplotype: every written cell
+   whose position the breakpoints label lies in a block for which ONE reference
+   haplotype (r,u), r listed by the sample-info file under the block's label,
+   explains the allele of every cell of the block; SAMPLE (if written) names r,
+   POP (if written) is the label *)
+Lemma hap_ok_sound c out h :
+  hap_ok c out h = true -> sorted (nth_or [] (g_bps c) h) ->
+  forall it, In it (items_of c out h) -> forall k, i_key it = Some k ->
+  (exists r u, In r (cands c (snd k)) /\ (u = 0 \/ u = 1) /\
+     forall it', In it' (items_of c out h) -> i_key it' = Some k ->
+       exists a, i_gt it' = Some a /\ lookup (g_data c) r (i_oidx it') u = Some a /\
+                 (forall s, i_smp it' = Some s -> s = Some r))
+  /\ (forall p, i_pop it = Some p -> p = Some (snd k)).
+Proof.
+  unfold hap_ok. intros H Hs it Hit k Hk.
+  apply sortedb_spec in Hs. rewrite Hs in H. cbn [negb orb] in H.
+  rewrite forallb_forall in H. specialize (H it Hit). unfold item_ok in H. rewrite Hk in H.
+  apply andb_true_iff in H. destruct H as [H1 H2]. split.
+  - apply existsb_exists in H1. destruct H1 as [r [Hr H1]].
+    apply existsb_exists in H1. destruct H1 as [u [Hu H1]].
+    exists r, u. split; [exact Hr|]. split.
+    { destruct Hu as [<-|[<-|[]]]; auto. }
+    intros it' Hit' Hk'. rewrite forallb_forall in H1. specialize (H1 it' Hit').
+    unfold item_from in H1. rewrite Hk', key_eqb_refl in H1.
+    apply andb_true_iff in H1. destruct H1 as [H1 H5]. apply andb_true_iff in H1. destruct H1 as [H3 H4].
+    destruct (i_gt it') as [a|]; [|discriminate]. exists a. split; [reflexivity|].
+    apply (opt_eqb_spec Z.eqb Zeqb_spec) in H3. split; [symmetry; exact H3|].
+    intros s Hsm. rewrite Hsm in H5. apply (opt_eqb_spec Z.eqb Zeqb_spec) in H5. exact H5.
+  - intros p Hp. rewrite Hp in H2. apply (opt_eqb_spec Z.eqb Zeqb_spec) in H2. exact H2.
+Qed.
+
+(* requested annotations are present, every simulated haplotype is in the output *)
+Lemma holds_out_sound c out :
+  holds_out c out = true ->
+  (g_pop_field c = true -> g_pgen c = false -> o_pop out <> None) /\
+  (g_sample_field c = true -> g_pgen c = false -> o_smp out <> None) /\
+  length (o_gt out) = length (g_bps c) /\
+  (forall h, (h < length (g_bps c))%nat -> hap_ok c out h = true) /\
+  (uniform_prefix (g_vars c) = true ->
+   o_vars out = map fst (filter (fun iv : Z * rvar => existsb (Z.eqb (rv_chrom (snd iv))) (g_chroms c))
+                                (read_vars (g_region c) (g_vars c)))).
+Proof.
+  unfold holds_out. intros H. apply andb_true_iff in H. destruct H as [H H4].
+  apply andb_true_iff in H. destruct H as [H H3]. apply andb_true_iff in H. destruct H as [H1 H2].
+  unfold fields_ok in H2. apply andb_true_iff in H2. destruct H2 as [H2a H2b].
+  unfold shape_ok in H3. apply andb_true_iff in H3. destruct H3 as [H3 _].
+  split; [|split; [|split; [|split]]].
+  - intros A B. rewrite A, B in H2a. cbn in H2a. destruct (o_pop out); [discriminate|discriminate].
+  - intros A B. rewrite A, B in H2b. cbn in H2b. destruct (o_smp out); [discriminate|discriminate].
+  - apply Nat.eqb_eq. exact H3.
+  - intros h Hh. rewrite forallb_forall in H4. apply H4. apply in_seq. lia.
+  - intros U. unfold vars_ok in H1. rewrite U in H1. cbn [negb orb] in H1.
+    apply (list_eqb_spec Z.eqb Zeqb_spec) in H1. exact H1.
+Qed.
+
+(* the hypotheses of assign_is_first_ge are satisfiable: positions 10 (on the
+   first block's end), 11, 30 and one beyond every marker; ends 10, 25, sentinel *)
+Example assign_example :
+  asc [10; 11; 30; 5000] /\ asc [10; 25; 2147483647] /\
+  (forall p, In p [10; 11; 30; 5000] -> exists e, last_opt [10; 25; 2147483647] = Some e /\ p <= e) /\
+  assign [10; 11; 30; 5000] [10; 25; 2147483647] = Ok [0; 1; 2; 2]%nat.
+Proof.
+  split; [cbn; intuition lia|]. split; [cbn; intuition lia|]. split; [|vm_compute; reflexivity].
+  intros p Hp. exists 2147483647. split; [reflexivity|]. cbn in Hp. intuition lia.
+Qed.
